@@ -119,6 +119,9 @@ def main():
         # properties with their own pipeline (relational ties etc.)
         return mod.run(args, seed, t0, cases, known, problems, notes, discharged, axioms_used)
 
+    if hasattr(mod, "KNOWN_IDS"):
+        mod.KNOWN_IDS.clear()
+        mod.KNOWN_IDS.update(k["id"] for k in known if k["status"] == "known")
     both = getattr(mod, "ASSERTION_SETTINGS", (False,))
     judge = getattr(mod, "judge", default_judge)
     classify = getattr(mod, "known_class", lambda case, impl, d: None)
@@ -156,6 +159,9 @@ def main():
             kid = classify(c, d["mirror"], d)
             if kid is None:
                 model_gap.append({"case": c, "mirror": d["mirror"], "spec": d["spec"]})
+
+    for kid, cs in getattr(mod, "KNOWN_HITS", {}).items():
+        known_hit.setdefault(kid, []).extend(cs)
 
     # 5. verdict
     violations = 0
